@@ -251,7 +251,25 @@ class Runaway(BaseException):
     resolution can (a BaseException, so that the resolver's own `except Exception` cannot swallow it)"""
 
 
-QUERY_LIMIT = 4000
+# hard bounds on what one top-level call may do in the fake world (a terminating resolution stays far below them: its
+# sleeps alone add up to at most the lifetime, and a round asks every server at most twice)
+STEP_LIMIT = 1500          # queries + sleeps
+QUERY_LIMIT = STEP_LIMIT   # (name used in messages)
+
+
+def ran_away(obs):
+    """did a call hit the fake world's step bounds?  Then the oracle has its counterexample; the model comparison and the
+    asyncio twin (which would only spin to the same bound) are skipped"""
+    def one(r):
+        return r.get("cls") == "FOREIGN" and str(r.get("exc", "")).startswith("Runaway")
+    return any(one(o["result"]) or any(one(c["result"]) for c in o.get("calls", [])) for o in obs)
+
+
+def _harness_signal(e):
+    """True for the harness's own control-flow exceptions (core.Stalled, …): they must never be classified as an outcome
+    of the implementation"""
+    return type(e).__name__ == "Stalled" and type(e).__module__.startswith("harness")
+
 
 
 class World:
@@ -264,9 +282,33 @@ class World:
         self.pos = 0
         self.events = []  # of the current resolution
         self.tokens = {}  # script position -> protocol token read off the message actually delivered
+        self.nservers = 1
         clock.on_sleep = self._sleep
+        self.reset()
+
+    def reset(self):
+        """a new top-level call begins"""
+        self.events = []
+        self.steps = 0
+        self.noprog = 0
+        self.last_ms = self.clock.ms
+
+    def _tick(self, what):
+        """every query and every sleep passes here: bounded number of steps, bounded run of steps during which the
+        clock stands still"""
+        self.steps += 1
+        if self.clock.ms > self.last_ms:
+            self.last_ms = self.clock.ms
+            self.noprog = 0
+        else:
+            self.noprog += 1
+        if self.steps > STEP_LIMIT:
+            raise Runaway(f"{STEP_LIMIT} queries and sleeps in one call and it still runs")
+        if self.noprog > (2 * self.nservers + 2) * 8 + 6:  # a round asks each server at most twice; ≤ 7 candidates
+            raise Runaway(f"{self.noprog} queries and sleeps in a row without the clock advancing (at {what})")
 
     def _sleep(self, ms):
+        self._tick("a sleep")
         self.events.append({"ev": "s", "ms": ms, "t0": self.clock.ms})
 
     def next_step(self, ns, request, timeout_ms, tcp):
@@ -284,8 +326,7 @@ class World:
         return {"k": "x", "e": "timeout", "v": 0, "d": 0}, "timeout", timeout_ms
 
     def begin(self, ns, request, timeout, tcp, source=None, source_port=0):
-        if sum(1 for e in self.events if e["ev"] == "q") >= QUERY_LIMIT:
-            raise Runaway(f"{QUERY_LIMIT} queries in one resolution")
+        self._tick("a query")
         to = to_ms(timeout)
         spec, tag, dur = self.next_step(ns, request, to, tcp)
         q = request.question[0]
@@ -414,6 +455,7 @@ def seconds(ms):
 
 
 def configure(res, cfg, world):
+    world.nservers = max(1, len(cfg["servers"]))
     objs = {}
     servers = []
     if cfg.get("route") == "str":
@@ -498,6 +540,8 @@ def result_of(fn):
     except Abort:
         return "Abort", {"cls": "Abort"}
     except BaseException as e:  # not a documented outcome
+        if _harness_signal(e):
+            raise
         return f"FOREIGN:{type(e).__name__}", {"cls": "FOREIGN", "exc": repr(e)}
     hasrr = a.rrset is not None
     s = {"cls": "Answer", "qname": hexl(a.qname.labels), "ty": int(a.rdtype), "rdcls": int(a.rdclass),
@@ -564,7 +608,7 @@ def _run_impl(case, mode, clock, world, loop):
         backend = RecBackend(world) if mode == "async" else None
         for rq in case["reqs"]:
             clock.advance(rq["gap"])
-            world.events = []
+            world.reset()
             start = clock.ms
             before = cache_view(res, start)
             qname = dns.name.Name(unhexl(rq["qname"]))
@@ -633,6 +677,8 @@ def _host_result(fn):
     try:
         h = fn()
     except BaseException as e:
+        if _harness_signal(e):
+            raise
         def thrower(e=e):
             raise e
         return result_of(thrower)
@@ -678,6 +724,8 @@ def _run_name(case, mode, clock, world, loop):
                     try:
                         box["v"] = orig(res, *args, **kw)
                     except BaseException as e:
+                        if _harness_signal(e):
+                            raise
                         box["e"] = e
                         raise
                     return box["v"]
@@ -692,6 +740,8 @@ def _run_name(case, mode, clock, world, loop):
                 try:
                     v = await orig(res, *args, **kw)
                 except BaseException as e:
+                    if _harness_signal(e):
+                        raise
                     def thrower(e=e):
                         raise e
                     line, r = result_of(thrower)
@@ -702,7 +752,7 @@ def _run_name(case, mode, clock, world, loop):
                 return v
         res.resolve = wrapper
         clock.advance(rq["gap"])
-        world.events = []
+        world.reset()
         start = clock.ms
         qname = dns.name.Name(unhexl(rq["qname"]))
         kw = dict(tcp=bool(rq["tcp"]), raise_on_no_answer=bool(rq["rona"]), search=None if rq["search"] is None else bool(rq["search"]))
@@ -953,8 +1003,8 @@ def oracle(ctx, case, obs, rep):
         where = f"resolution {idx}: {o['line']}"
         ctx.count("result." + cls)
         if cls == "FOREIGN" and res["exc"].startswith("Runaway"):
-            fail("lifetime/does-not-terminate", f"{where}: {QUERY_LIMIT} queries issued and the resolution still runs "
-                 f"(clock at +{end - start} ms, lifetime {life})")
+            fail("lifetime/does-not-terminate", f"{where}: {res['exc']} (clock at +{end - start} ms, lifetime {life} ms, "
+                 f"{len(queries)} queries, last timeouts {[e['to'] for e in queries[-3:]]})")
             continue
         if cls == "FOREIGN":
             fail("classification/foreign-exception:" + res["exc"].split("(")[0], f"{where}: {res['exc']}")
@@ -1250,6 +1300,9 @@ def oracle_entry(ctx, case, ob, rep):
         ctx.fail(f"C16/{entry}/{clause}", what, rep)
 
     ctx.count(f"entry.{entry}.{res['cls']}")
+    if res["cls"] == "FOREIGN" and res["exc"].startswith("Runaway"):
+        fail("does-not-terminate", f"{where}: {res['exc']} (clock at +{end - start} ms)")
+        return
     if res["cls"] == "FOREIGN" and not res["exc"].startswith(("NoRootSOA", "NotAbsolute")):
         fail("foreign-exception:" + res["exc"].split("(")[0], f"{where}: {res['exc']}")
         return
@@ -1312,6 +1365,9 @@ def oracle_name(ctx, case, ob, rep):
         ctx.fail(f"C16/resolve_name/{clause}", what, rep)
 
     ctx.count("rname." + rq["family"] + "." + res["cls"])
+    if res["cls"] == "FOREIGN" and res["exc"].startswith("Runaway"):
+        fail("does-not-terminate", f"{where}: {res['exc']} (clock at +{end - start} ms, lifetime {life} ms)")
+        return
     if res["cls"] == "FOREIGN":
         fail("foreign-exception:" + res["exc"].split("(")[0], f"{where}: {res['exc']}")
         return
@@ -1391,6 +1447,9 @@ def eval_case(ctx: Ctx, c: dict, gen=None):
         # from here on the script is fixed
         rep = {"kind": k, "case": c}
         evicted = oracle(ctx, c, obs, rep)
+        if ran_away(obs):
+            ctx.count("run.ran-away")
+            return True
         if any(st.get("e") == "abort" for st in c["script"]):
             ctx.count("run.abort-not-modelled")  # BaseException pass-through is judged by the oracle and sync/async only
         elif evicted:
@@ -1414,6 +1473,9 @@ def eval_case(ctx: Ctx, c: dict, gen=None):
     if k == "rname" and c.get("entry", "resolve_name") != "resolve_name":
         line, obs, tokens = run_impl(c, "sync", gen)
         oracle_entry(ctx, c, obs[0], rep)
+        if ran_away(obs):
+            ctx.count("run.ran-away")
+            return True
         if c["entry"] != "zone_for_name":
             aline, aobs, _ = run_impl(c, "async", None)
             if c["entry"] == "canonical_name":
@@ -1426,7 +1488,11 @@ def eval_case(ctx: Ctx, c: dict, gen=None):
         return True
     if k == "rname":
         line, obs, tokens = run_impl(c, "sync", gen)
-        if not oracle_name(ctx, c, obs[0], rep):
+        evicted = oracle_name(ctx, c, obs[0], rep)
+        if ran_away(obs):
+            ctx.count("run.ran-away")
+            return True
+        if not evicted:
             ctx.corr(op_line(c, tokens), line, c)
         aline, aobs, _ = run_impl(c, "async", None)
         if aline != line:
@@ -1455,6 +1521,8 @@ def eval_case(ctx: Ctx, c: dict, gen=None):
                 if to_ms(e.kwargs.get("timeout", 0)) != (moved if moved < -1000 else max(moved, 0)):  # a small step back counts as 0
                     ctx.fail("C16/timeout/reported-elapsed", f"LifetimeTimeout reports {e.kwargs.get('timeout')} s elapsed, the clock moved {c['now'] - c['start']} ms since start", rep)
             except BaseException as e:
+                if _harness_signal(e):
+                    raise
                 impl = "FOREIGN " + type(e).__name__
                 ctx.fail("C16/timeout/foreign-exception:" + type(e).__name__, impl, rep)
         life = c["life_res"] if c["life_arg"] is None else c["life_arg"]
@@ -1485,6 +1553,8 @@ def eval_case(ctx: Ctx, c: dict, gen=None):
             got = None
             impl = "err " + type(e).__name__
         except BaseException as e:
+            if _harness_signal(e):
+                raise
             got = None
             impl = "FOREIGN " + type(e).__name__
             ctx.fail("C16/qnames/foreign-exception:" + type(e).__name__, impl, rep)
@@ -1510,6 +1580,8 @@ def eval_case(ctx: Ctx, c: dict, gen=None):
             impl = "err FormError"
             got = ("err", "FormError")
         except BaseException as e:
+            if _harness_signal(e):
+                raise
             impl = "FOREIGN " + type(e).__name__
             got = ("foreign",)
             ctx.fail("C16/chain/foreign-exception:" + type(e).__name__, impl, rep)
@@ -2019,6 +2091,8 @@ def structural_sync_async(ctx: Ctx):
         a = _normalised_resolve_body(dns.resolver.Resolver.resolve, False)
         b = _normalised_resolve_body(dns.asyncresolver.Resolver.resolve, True)
     except BaseException as e:  # source not available or not parseable: nothing can be concluded structurally
+        if _harness_signal(e):
+            raise
         ctx.notes.append(f"structural sync/async comparison not possible: {e!r}")
         ctx.extra["async_loop_structurally_equal"] = None
         return
